@@ -15,6 +15,7 @@ import types
 REPO = os.environ.get('VERIF_REPO', '/repo')
 
 _file_cache = {}
+_GDB_STUB = []
 _func_index = {}
 
 
@@ -22,9 +23,15 @@ def install_gdb_stub():
     """extract.py / plugin.py `import gdb`; give them an inert stub (verifier process only)."""
     if 'gdb' in sys.modules:
         return
+    if _GDB_STUB:
+        sys.modules['gdb'] = _GDB_STUB[0]      # one stub for all plugin modules
+        return
     gdb = types.ModuleType('gdb')
+    _GDB_STUB.append(gdb)
     class _T:
+        sizeof = 4
         def pointer(self): return self
+    _T.__name__ = 'Type'
     class Breakpoint:
         def __init__(self, *a, **k): pass
     class Command:
@@ -35,10 +42,10 @@ def install_gdb_stub():
         pass
     class Frame:
         pass
-    for k in (Thread, Value, Frame, Breakpoint, Command):
+    for k in (Thread, Value, Frame, Breakpoint, Command, _T):
         k.__module__ = 'gdb'
         k.__qualname__ = k.__name__
-    gdb.Thread, gdb.Value, gdb.Frame = Thread, Value, Frame
+    gdb.Thread, gdb.Value, gdb.Frame, gdb.Type = Thread, Value, Frame, _T
     def selected_thread(): raise RuntimeError('gdb stub')
     def execute(command): raise RuntimeError('gdb stub')
     def write(text, stream=None): raise RuntimeError('gdb stub')
@@ -51,7 +58,9 @@ def install_gdb_stub():
         setattr(gdb, f.__name__, f)
     gdb.Breakpoint = Breakpoint
     gdb.Command = Command
-    gdb.lookup_type = lambda name: _T()
+    def lookup_type(name): return _T()
+    lookup_type.__module__ = 'gdb'; lookup_type.__qualname__ = 'lookup_type'
+    gdb.lookup_type = lookup_type
     gdb.STDERR = 1
     gdb.COMMAND_DATA = 0
     gdb.TYPE_CODE_PTR = 1
